@@ -317,7 +317,7 @@ func elgamalCase[E egElem[E, S], S algebra.PrimeFieldElement[S]](r *runner, c co
 				p := p
 				v := p.v
 				r.ask(fmt.Sprintf("EO %s %s %s %s,%s %s %s", p.vid, zh(cx.q), zh(v.x), zh(add(mr[k].c0, v.d0)), zh(add(mr[k].c1, v.d1)), zh(v.mu), zh(v.w)), func(out string) {
-					if out != p.impl {
+					if r.openAlarm(v.name == "honest", p.impl, out) {
 						r.corr(p.vid, "indcpacom-open-"+tamperClass(v.name), fmt.Sprintf("implementation Open=%s, model eg_open=%s", p.impl, out), p.tcse,
 							"correspondence indcpacom Open = re-encrypt and compare [model/Commit.v indcpa_open / eg_open]", (v.name == "honest" && p.impl != "1") || (v.mustReject && p.impl == "1"))
 					}
